@@ -127,3 +127,30 @@ def lock_discipline(ctx, ex, proc_names, label='locking'):
             elif isinstance(n, (A.Insert, A.Delete)):
                 touched.add(n.table if isinstance(n.table, str) else n.table.name)
         ctx.add(core.decided('%s/%s/first-read-of-every-written-table-takes-a-lock' % (label, name), not bad, 'unlocked first reads: %r' % bad, kind='scan'))
+
+
+_DEDUP = {}
+
+
+def add_valid(ctx, name, pc, pre, goal, dedupe_key=None, **kw):
+    """obligation `pc /\\ pre => goal` with the path condition sliced to the cone of influence of goal and pre, and
+    de-duplicated across paths (many procedure paths differ only in branches that are irrelevant to the goal)."""
+    import z3
+    from vc import core
+
+    probe = z3.And(goal, *pre) if pre else goal
+    hyps = core.slice_hyps(list(pc), probe) + list(pre)
+    key = (ctx.pid, dedupe_key or name.split('/path')[0] + '/' + name.split('/')[-1], z3.And(*hyps, z3.Not(goal)).sexpr())
+    if key in _DEDUP:
+        return None
+    _DEDUP[key] = True
+    o = core.valid(name, hyps, goal, **kw)
+    ctx.add(o)
+    return o
+
+
+def engine_obligations(ctx, ex):
+    """obligations the executor itself raises: every joined UPDATE must determine the joined row per updated row"""
+    from vc import core
+
+    ctx.add(core.decided('sql/every-joined-update-determines-its-joined-rows', not ex.determinism_issues, repr(ex.determinism_issues[:4]), kind='scan'))
